@@ -7,6 +7,7 @@ Operators: relational flips, && <-> ||, dropped negation, true <-> false, delete
 count updates / terminate / wake / forget / state changes), push_back <-> push_front, pop_front <-> pop_back,
 send_count <-> recv_count, UNLOCKED <-> TERMINATED, +1 <-> -1 on counts. Hook lines, comments and doc lines are skipped."""
 import re, sys, os, subprocess, json, time
+os.environ["VERIF_NO_EVIDENCE"] = "1"
 REPO = os.environ.get("MUT_REPO", "/repo")
 VERIF = os.environ.get("MUT_VERIF", "/verif")
 FILES = ["src/lib.rs", "src/internal.rs", "src/signal.rs", "src/future.rs", "src/pointer.rs", "src/mutex.rs", "src/backoff.rs"]
